@@ -19,7 +19,10 @@ for d in sorted(glob.glob("/verif/seeded/*")):
     conf = ""
     if "suite_passes_with_patch" in r:
         conf = "yes" if (r.get("suite_passes_with_patch") and r.get("demo_fails_with_patch") and r.get("demo_passes_without_patch")) else "NO"
-    rows.append(f"| {m['id']} | {title} | {conf} | {'**yes**: ' + first if r.get('target_caught') else ('no' if r else 'not evaluated')} | {', '.join(others)} |")
+    verdict = '**yes**: ' + first if r.get('target_caught') else ('no' if r else 'not evaluated')
+    if not r.get('target_caught') and m.get('assessment'):
+        verdict = 'no - ' + m['assessment']
+    rows.append(f"| {m['id']} | {title} | {conf} | {verdict} | {', '.join(others)} |")
 table = "| id | change (needs to manifest) | confirmed (suite passes, demo fails/passes) | caught by its target check | also reported by |\n|---|---|---|---|---|\n" + "\n".join(rows)
 p = "/verif/DESIGN.md"
 s = open(p).read()
